@@ -96,6 +96,11 @@ func (lm *ListenerMux) Start() {
 					}
 					continue
 				}
+				if lm.shutdown {
+					// accepted while the listeners are being stopped.
+					_ = c.Close()
+					return
+				}
 				if atomic.AddInt32(&lm.onlineA, 1) <= lm.maxOnlineA {
 					listenerA.chEvent <- event{err: nil, conn: c}
 				} else {
@@ -121,6 +126,11 @@ func (lm *ListenerMux) Stop() {
 		_ = ab.b.Close()
 	}
 	close(lm.chClose)
+	// The connections that are still queued will not be accepted any more.
+	for _, ab := range lm.listeners {
+		ab.a.closeQueued()
+		ab.b.closeQueued()
+	}
 }
 
 // DecreaseOnlineA decreases the online num of ChanListener A.
@@ -147,6 +157,20 @@ func (l *ChanListener) Accept() (net.Conn, error) {
 		return e.conn, e.err
 	case <-l.chClose:
 		return nil, net.ErrClosed
+	}
+}
+
+//go:norace
+func (l *ChanListener) closeQueued() {
+	for {
+		select {
+		case e := <-l.chEvent:
+			if e.conn != nil {
+				_ = e.conn.Close()
+			}
+		default:
+			return
+		}
 	}
 }
 
